@@ -434,7 +434,7 @@ def _jobs_for(prop, tier):
         return [j for j in jobs_option_below(tier) if j[1][3] == 'combinations'] + jobs_combinations(tier)
     if prop == 'C03':
         return jobs_c03(tier) + jobs_option_reduce(tier) + jobs_axis(tier, ('reduce',))
-    return {'C02': jobs_c02, 'C03': jobs_c03, 'C04': jobs_c04, 'C06': (lambda t: jobs_c06(t) + jobs_axis(t, ('sort', 'argsort')) + jobs_numpy_sort(t)), 'C08': (lambda t: jobs_c08(t) + jobs_numpy(t) + jobs_union(t) + jobs_reverse_merge(t) + jobs_record_merge(t) + jobs_list_merge(t) + [j for j in jobs_record_named(t) if j[0] is h_record_mergemany_named]), 'C17': jobs_c17, 'C12': jobs_numpy, 'C10': (lambda t: jobs_c10(t) + [j for j in jobs_record_named(t) if j[0] is h_record_field_key] + jobs_project(t) + [j for j in jobs_option_below(t) if j[1][3] == 'getitem_field']), 'C05': jobs_c05, 'C09': jobs_c09}.get(prop, lambda t: [])(tier)
+    return {'C02': jobs_c02, 'C03': jobs_c03, 'C04': jobs_c04, 'C06': (lambda t: jobs_c06(t) + jobs_axis(t, ('sort', 'argsort')) + jobs_numpy_sort(t)), 'C08': (lambda t: jobs_c08(t) + jobs_numpy(t) + jobs_union(t) + jobs_reverse_merge(t) + jobs_record_merge(t) + jobs_list_merge(t) + [j for j in jobs_record_named(t) if j[0] is h_record_mergemany_named] + jobs_merge_union(t)), 'C17': jobs_c17, 'C12': jobs_numpy, 'C10': (lambda t: jobs_c10(t) + [j for j in jobs_record_named(t) if j[0] is h_record_field_key] + jobs_project(t) + [j for j in jobs_option_below(t) if j[1][3] == 'getitem_field']), 'C05': jobs_c05, 'C09': jobs_c09}.get(prop, lambda t: [])(tier)
 
 
 # ------------------------------------------------------------------------------------------------ C01: getitem_next of list nodes
@@ -4089,3 +4089,33 @@ def jobs_bytemask(tier):
             js.append((h_bytemask, ('BitMaskedArray', p, (vw, lsb)), 900))
     js.append((h_bytemask, ('UnmaskedArray', (0, 0, 0), None), 900))
     return js
+
+
+# ------------------------------------------------------------------------------------------------ C08: values that cannot be merged form a union
+@guard
+def h_merge_as_union(la, lb):
+    """Content::merge_as_union(other): the entries of this array followed by the entries of the other one, each still the same element of its own
+    (unchanged) content - the result is a union whose tags say which array an entry came from and whose index is the position in it"""
+    nc = NodeCtx(['CNT', 'UNI', 'IDX', 'UTL', 'KD', 'IDS', 'EA'], [], unwind=la + lb + 12)
+    BASE = 1 << 32
+    nc.m.assume(nc.lencontent == la)
+    kk = z3.BitVec('k!', 64)
+    other = nc.new_content_in(nc.m.mem, 'content_other', BV(lb), z3.Lambda([kk], kk + BASE), const=True)
+    otherp = nc.m.record('otherptr', {0: (other, 8), 8: (NULL, 8)}, const=True)
+    nc.m.record('ret', {})
+    out = nc.m.call('_ZNK7awkward7Content14merge_as_unionERKSt10shared_ptrIS0_E', [Ptr('ret', 0), nc.content0, otherp])
+    obls = [('merge_as_union does not raise', out.raised)]
+    res = decode(nc, out.mem, nc.m.cell('ret', 0))
+    want = [Elem(BV(i)) for i in range(la)] + [Elem(BV(i) + BASE) for i in range(lb)]
+    obls += nodeh.compare_value(res, want)
+    if res['cls'] != 'union' or len(res.get('contents', [])) != 2:
+        obls.append(('the result is a union of the two arrays', z3.BoolVal(True)))
+
+    def replay(model, ent):
+        prog = 'i64 %s i64 %s regular 1 %d mergeunion' % (fullnative.ints(range(la)), fullnative.ints(range(500, 500 + lb)), lb)
+        return akrun_check(prog, list(range(la)) + [[500 + i] for i in range(lb)], 'numbers %s merged with lists of one number %s' % (la, lb))
+    return mdischarge(nc.m, 'Content::merge_as_union %d + %d' % (la, lb), obls, [], replay=replay, extra=dict(bounds='lengths %d and %d (case split), opaque contents' % (la, lb)))
+
+
+def jobs_merge_union(tier):
+    return [(h_merge_as_union, a, 900) for a in ([(2, 1), (0, 2)] if tier == 'quick' else [(2, 1), (0, 2), (3, 0), (0, 0), (1, 3)])]
